@@ -13,7 +13,7 @@ NOTE = ('Held = held on the executions observed (see evidence: evaluations, dist
 CHECKS = {
     'C01': dict(
         technique=RM + 'reference-model monitor at the API boundary (exhaustive per-dataset index sweep, expected-error events) + sys.monitoring reach monitor',
-        text='Every linear index of every grid kind of 1000 (quick) / 80 000 (thorough) generated datasets (some declaring x before y) of all conventions is wound and ravelled by the real code while a monitor compares with row-major integer arithmetic on the abstract model; out-of-range linear and native indexes must raise; the deprecated unravel_index alias must agree.',
+        text='Every linear index of every grid kind of 1000 (quick) / 80 000 (thorough) generated datasets (some declaring x before y) of all conventions is wound and ravelled by the real code while a monitor compares with row-major integer arithmetic on the abstract model; out-of-range linear and native indexes must raise; the deprecated unravel_index alias must agree. Also observed: grid_shape, grid_dimensions, get_grid_kind and the deprecated get_grid_kind_and_size / unravel_index, explicit latitude= / longitude= construction.',
         note=NOTE + 'Grids up to ~6x6 / ~40 mesh faces (thorough: every sixth dataset up to 14x14 / ~150 faces).', ref='DESIGN.md §5 C01'),
     'C02': dict(
         technique=RM + 'cross-accessor reference-model monitor with self-identifying values (polygons, centres, ravel, select_index, STRtree) + in-situ icontract post-conditions + reach monitor',
@@ -21,7 +21,7 @@ CHECKS = {
         note=NOTE + 'Derived geometry (CF grids without bounds) compared within 1e-9; zero-area synthesised cells are not asserted.', ref='DESIGN.md §5 C02'),
     'C03': dict(
         technique=RM + 'reference-model monitor on ravel/wind + in-situ icontract post-conditions on utils.ravel_dimensions / wind_dimension (fire inside every workload) + reach monitor',
-        text='ravel / wind are driven over all conventions x kinds x variables with 0-3 extra dims in random permutations, default/custom/colliding linear names, winding by axis / name / default with the linear axis at every position; results compared bit-for-bit with the model canonical arrays and with a moveaxis+reshape reference inside the contract.',
+        text='ravel / wind are driven over all conventions x kinds x variables with 0-3 extra dims in random permutations, default/custom/colliding linear names, winding by axis / name / default with the linear axis at every position; results compared bit-for-bit with the model canonical arrays and with a moveaxis+reshape reference inside the contract. Also: the deprecated make_linear alias, variables with only part of a grid refused, a linear dimension named after a flattened grid dimension.',
         note=NOTE + 'A custom linear name colliding with an existing dimension may be refused; only returned values are checked then.', ref='DESIGN.md §5 C03'),
     'C04': dict(
         technique=RM + 'brute-force oracle monitor at the API boundary (GEOS intersects over the model polygon array) + reach monitor',
@@ -29,7 +29,7 @@ CHECKS = {
         note=NOTE + 'For CF grids without stored bounds the brute force runs over the (1e-9-verified) emsarray polygon array, because boundary points are undecidable from a model that is only 1e-9-close.', ref='DESIGN.md §5 C04'),
     'C05': dict(
         technique=RM + 'reference-model monitor with self-identifying values over select_index(es) / select_point(s) / extract_points / extract_dataframe incl. expected-error events + reach monitor',
-        text='Index lists (repeats, shuffled, every grid kind, custom dimension names) and point lists (hits, boundary hits, misses) under policies error / drop / fill are selected through the real API and compared value-for-value, row-for-row with the model; absence of other-kind and geometry variables is asserted; NonIntersectingPoints must name exactly the misses.',
+        text='Index lists (repeats, shuffled, every grid kind, custom dimension names) and point lists (hits, boundary hits, misses) under policies error / drop / fill are selected through the real API and compared value-for-value, row-for-row with the model; absence of other-kind and geometry variables is asserted; NonIntersectingPoints must name exactly the misses. Also: selector_for_index, tables with gappy / reversed / offset / RangeIndex-slice indexes, documented defaults relied on, a variable added after the first selection.',
         note=NOTE + 'Nothing asserted for variables without a grid dimension, for drop/fill with every point missing, or for caller-chosen dimension names that collide with dataset dimensions.', ref='DESIGN.md §5 C05'),
     'C06': dict(
         technique=RM + 'reference-model monitor on polygons / mask / bounds / geometry + warning capture + in-situ contract on make_polygons_with_holes + reach monitor (both bounds branches of each topology class must be entered)',
@@ -37,11 +37,11 @@ CHECKS = {
         note=NOTE + 'Rings compared modulo start vertex and direction; stored 1-D bounds are contiguous; invalid cells are interior (bounds not asserted when one reaches outside the hull); meshes may carry orphan nodes; CF 1-D coordinates may be stored as integers / float32, CF 2-D longitude may be stored transposed.', ref='DESIGN.md §5 C06'),
     'C07': dict(
         technique=RM + 'exhaustive enumeration as workload for the mask primitives under in-situ icontract post-conditions (loop references) + end-to-end reference-model monitor on make_clip_mask + monotonicity monitor on recorded outputs + reach monitor',
-        text='(i) every boolean array up to 4x4 (thorough; quick: up to 9 elements + random 4x4) through blur_mask (size 0..3), smear_mask, c_mask_from_centres, each call checked by a contract; (ii) make_clip_mask for buffers 0..3 over all conventions and ~14 geometry classes vs brute-force GEOS selection, own Chebyshev dilation / node-sharing rings / rank renumbering; (iii) enlarging geometry or buffer never unmarks.',
+        text='(i) every boolean array up to 4x4 (thorough; quick: up to 9 elements + random 4x4) through blur_mask (size 0..3), smear_mask, c_mask_from_centres, each call checked by a contract; (ii) make_clip_mask for buffers 0..3 over all conventions and ~14 geometry classes vs brute-force GEOS selection, own Chebyshev dilation / node-sharing rings / rank renumbering; (iii) enlarging geometry or buffer never unmarks. Also: buffer argument omitted (documented default 0), selections with one-cell gaps, primitives on column-major and strided arrays, the file\'s own edge numbering as oracle.',
         note=NOTE + 'Polygon fidelity is C06, mesh table normalisation C10. The evidence flag exhaustive refers to the primitive sweep of the thorough tier only.', ref='DESIGN.md §5 C07'),
     'C08': dict(
         technique=RM + 'history + reference-model monitor with self-identifying values (clip directly, or make mask -> save -> reload -> apply to a twin dataset) + in-situ mask contracts + reach monitor',
-        text='Clips of generated datasets of all conventions (float/int/int+_FillValue/int+missing_value variables on every kind, dims in any order, meshes with all 16 table subsets, in memory or via netCDF) are loaded and every output value is compared with the model: selected cells unchanged, unselected cells in the extent missing, unmaskable integers cropped but unaltered, non-grid variables, coordinates and attributes unchanged.',
+        text='Clips of generated datasets of all conventions (float/int/int+_FillValue/int+missing_value variables on every kind, dims in any order, meshes with all 16 table subsets, in memory or via netCDF) are loaded and every output value is compared with the model: selected cells unchanged, unselected cells in the extent missing, unmaskable integers cropped but unaltered, non-grid variables, coordinates and attributes unchanged. Also: buffer omitted, gap selections, Python-int missing_value, the fill-value declaration must survive clipping.',
         note=NOTE + 'Values compared numerically after CF decoding; empty selections not asserted.', ref='DESIGN.md §5 C08'),
     'C09': dict(
         technique=RM + 'history + reference-model monitor on the clipped dataset (class, save/reopen, polygons, independently decoded connectivity, raw on-disk dtype via netCDF4, select_variables) + reach monitor',
@@ -53,7 +53,7 @@ CHECKS = {
         note=NOTE + 'Transposed tables come with the *_dimension attribute UGRID requires; cross-numbering checks only between tables that share a numbering.', ref='DESIGN.md §5 C10'),
     'C14': dict(
         technique=RM + 'reference-model monitor on triangulate_dataset with exact rational arithmetic on an integer-lattice face family (count, membership, containment, pairwise interior overlap, area sum) + reach monitor',
-        text='triangulate_dataset is run on generated datasets of every convention (with holes) and on free-standing lattice faces (convex, L/U/T/staircase, stars, exactly collinear vertices, CW/CCW, 3..8 sides, integer linear maps, a float-rotated family); per cell: n-2 triangles made of the cell\'s vertices, inside the cell, pairwise non-overlapping (exact separating-axis test), areas summing exactly to the cell area; holes have none; vertex rows unique and indexes valid.',
+        text='triangulate_dataset is run on generated datasets of every convention (with holes) and on free-standing lattice faces (convex, L/U/T/staircase, stars, exactly collinear vertices, CW/CCW, 3..8 sides, integer linear maps, a float-rotated family); per cell: n-2 triangles made of the cell\'s vertices, inside the cell, pairwise non-overlapping (exact separating-axis test), areas summing exactly to the cell area; holes have none; vertex rows unique and indexes valid. Also: a second triangulation after the caller modified the first result in place.',
         note=NOTE + 'Exact Fractions on the lattice family, GEOS covers / 1e-9 relative elsewhere; cells with skip_cells not asserted.', ref='DESIGN.md §5 C14'),
     'C15': dict(
         technique=RM + 'round-trip monitor: files written by the real exporters are read back with independent readers (json, pyshp, shapely.from_wkt/from_wkb) and compared with the abstract model; mechanism classifier for the known 6-decimal rounding + reach monitor',
@@ -61,23 +61,23 @@ CHECKS = {
         note=NOTE + 'Open known finding text-format-6dp-rounding (GeoJSON and WKT round to 6 decimals) is reported as KNOWN-FINDING by a per-feature predicate; any other coordinate difference is a violation. Shapefile rings compared modulo start/direction (format prescribes winding).', ref='DESIGN.md §5 C15'),
     'C18': dict(
         technique=RM + 'reference-model monitor on Transect (segments, points, transect_dataset, prepared data) with 1-D interval arithmetic along the path, metric-free monotonicity, and the documented metric recomputed with cartopy/pyproj only; mechanism classifier for the known shared-edge double count + reach monitor',
-        text='Thousands of simple polylines (through, inside, starting outside, zig-zag across holes, along shared and border edges, re-entering, missing) over generated grids and meshes; per segment: inside its cell and on the path, consistent linear/native index and polygon, start <= end, sorted; union of segments == path inside the model; reported distances monotone in path position and equal to the recomputed geodesic metric; lengths conserved; prepared data columns hold the ids of the segment cells at every depth.',
+        text='Thousands of simple polylines (through, inside, starting outside, zig-zag across holes, along shared and border edges, re-entering, missing) over generated grids and meshes; per segment: inside its cell and on the path, consistent linear/native index and polygon, start <= end, sorted; union of segments == path inside the model; reported distances monotone in path position and equal to the recomputed geodesic metric; lengths conserved; prepared data columns hold the ids of the segment cells at every depth. Also: Transect without a depth argument (smallest depth coordinate, layer interfaces listed first), stored / made-up depth bounds of the transect dataset.',
         note=NOTE + 'cfunits is replaced by a stand-in (axis labels only; the real one needs the absent udunits2 library). Distances checked against the metric emsarray documents (geodesic through cartopy PlateCarree->geodetic conversion), tolerance 1e-6 relative + 1 mm. Open known finding shared-edge-double-count.', ref='DESIGN.md §5 C18'),
     'C19': dict(
         technique=RM + 'reference-model monitor on matplotlib artists (PolyCollection paths/array/clim, Quiver X/Y/U/V, animation frames) under the Agg backend with self-identifying values + expected-error events + reach monitor',
-        text='make_poly_collection (by name / by array / reduced datasets, overrides array / clim / transform), make_quiver and animate_on_figure on generated datasets with and without holes: one patch per cell with geometry in linear order with that cell\'s outline and value, default clim = range of the plotted values, arrows at face centres with the components of the same cell, leftover dimensions and array+data refused.',
+        text='make_poly_collection (by name / by array / reduced datasets, overrides array / clim / transform), make_quiver and animate_on_figure on generated datasets with and without holes: one patch per cell with geometry in linear order with that cell\'s outline and value, default clim = range of the plotted values, arrows at face centres with the components of the same cell, leftover dimensions and array+data refused. Also: make_quiver(transform=) override, make_patch_collection alias, plot_on_figure scalar + vector.',
         note=NOTE + 'No rendering, no coastline data. Variables on non-face kinds are not asserted (statement silent).', ref='DESIGN.md §5 C19'),
     'C11': dict(
         technique=RM + 'history + executable sequential model (binding histories with id() as unique values, enumerated exhaustively to a bounded length), executable restatement of the detection rule over datasets and near-misses, fresh-interpreter runs under several PYTHONHASHSEED values + reach monitor',
-        text='(a) get_dataset_convention / .ems on generated datasets, shuffled copies and 27 kinds of near-miss vs a restated rule, also in fresh interpreters with hash seeds 0/1/4242/random; (b) register_convention of 1-3 dummy conventions in every order (specificity, manual-before-entry-point, earlier-first ties), registry saved/restored per case; (c) ALL legal op sequences up to length 5 (quick) / 7 (thorough) over {access, construct+bind, shallow/deep copy, access on copy, bind copy} plus random ones to length 20, checked against a per-handle bound-object model.',
+        text='(a) get_dataset_convention / .ems on generated datasets, shuffled copies and 27 kinds of near-miss vs a restated rule, also in fresh interpreters with hash seeds 0/1/4242/random; (b) register_convention of 1-3 dummy conventions in every order (specificity, manual-before-entry-point, earlier-first ties), registry saved/restored per case; (c) ALL legal op sequences up to length 5 (quick) / 7 (thorough) over {access, construct+bind, shallow/deep copy, access on copy, bind copy} plus random ones to length 20, checked against a per-handle bound-object model. Also: detection unchanged after explicit constructions with options and after the accessor was used on the original; Conventions attribute as a list of strings; bind() once more on the attached object refused.',
         note=NOTE + 'A tie between two built-in conventions is not ordered, only checked for consistency. exhaustive in the evidence refers to the bounded history enumeration.', ref='DESIGN.md §5 C11'),
     'C12': dict(
         technique=RM + 'reference-model monitor with self-identifying values on ocean_floor (accessor and function) + in-situ icontract post-condition on _find_ocean_floor_indexes + reach monitor',
-        text='Datasets of all conventions with statically floored depth variables (0..K wet layers per column, gaps above the floor), positive up/down (any letter case, or absent), deep-first/shallow-first storage, 1-2 depth coordinates, depth dimension at every position, variables on several grid kinds and without depth: every reduced variable is compared bit-for-bit with the id of the physically deepest wet layer computed from the model; depth dimension and coordinates gone, everything else unchanged.',
+        text='Datasets of all conventions with statically floored depth variables (0..K wet layers per column, gaps above the floor), positive up/down (any letter case, or absent), deep-first/shallow-first storage, 1-2 depth coordinates, depth dimension at every position, variables on several grid kinds and without depth: every reduced variable is compared bit-for-bit with the id of the physically deepest wet layer computed from the model; depth dimension and coordinates gone, everything else unchanged. Also: bathymetry variables with depth-like attributes on every grid kind left alone; multi-dimensional coordinates carrying the depth dimension reduced like variables.',
         note=NOTE + 'Within the documented assumption of a static floor per (depth axis, spatial dims) group; order of remaining dimensions and the fate of depth-bounds variables are counted, not asserted.', ref='DESIGN.md §5 C12'),
     'C13': dict(
         technique=RM + 'reference-model monitor with self-identifying layers on normalize_depth_variables for all nine option pairs, applied once and twice, with deep input snapshots (purity) + reach monitor',
-        text='For 2-8 level monotonic depth coordinates (attribute up/down in any case or absent, with/without bounds, dimension coordinate / non-index coordinate / plain variable, several coordinates per dataset) every clause is checked: attribute and values agree with the request, ordering as requested, bounds rows travel and flip with their layer, every data id still sits at its original physical depth, f(f(x)) == f(x), unset options change nothing, input untouched.',
+        text='For 2-8 level monotonic depth coordinates (attribute up/down in any case or absent, with/without bounds, dimension coordinate / non-index coordinate / plain variable, several coordinates per dataset) every clause is checked: attribute and values agree with the request, ordering as requested, bounds rows travel and flip with their layer, every data id still sits at its original physical depth, f(f(x)) == f(x), unset options change nothing, input untouched. Also: dataset.ems.depth_coordinates asserted to be exactly the generated depth coordinates; unset options sometimes simply not passed.',
         note=NOTE + 'Coordinates without attribute avoid 0 and mixed signs so the documented majority-sign guess is unambiguous.', ref='DESIGN.md §5 C13'),
     'C16': dict(
         technique=RM + 'equivalence-class monitor: make_cache_key on a dataset and on constructed twins (22 invariant edits, 12 sensitive single geometry edits, netCDF round trips, fresh interpreters with different hash seeds) + mechanism classifier for the known marshal finding + reach monitor',
@@ -85,11 +85,11 @@ CHECKS = {
         note=NOTE + 'Open known finding marshal-object-identity is reported as KNOWN-FINDING only when the harness fingerprint and a canonical re-serialisation of the attributes agree; sensitive edits must also change the canonical key so marshal noise cannot mask a miss.', ref='DESIGN.md §5 C16'),
     'C17': dict(
         technique=RM + 'exhaustive enumeration as workload of composed time-unit strings (true instant known by construction) under an in-situ icontract post-condition with an independent parser + file round-trip monitor (emsarray.open_dataset and raw netCDF4) + reach monitor',
-        text='(1) format_time_units_for_ems on strings composed from period x 105 UTC offsets (-12:00..+14:00 by 15 min) x 7 writing styles x 9 epochs (leap day, year/day boundaries, year < 1000): output must have the EMS form and denote the same instant for the harness parser AND for cftime; thorough enumerates all 33 255 strings; (2) ems.to_netcdf / to_netcdf_with_fixes on datasets of all conventions (with and without time axis, from memory or from disk): same convention, polygons, values, decoded instants after reopening; EMS-form units with the right instant and no invented _FillValue on disk.',
+        text='(1) format_time_units_for_ems on strings composed from period x 105 UTC offsets (-12:00..+14:00 by 15 min) x 7 writing styles x 9 epochs (leap day, year/day boundaries, year < 1000): output must have the EMS form and denote the same instant for the harness parser AND for cftime; thorough enumerates all 33 255 strings; (2) ems.to_netcdf / to_netcdf_with_fixes on datasets of all conventions (with and without time axis, from memory or from disk): same convention, polygons, values, decoded instants after reopening; EMS-form units with the right instant and no invented _FillValue on disk. Also: a single time slice (scalar time coordinate), another time-like variable before the SHOC record variable, geometry used before saving.',
         note=NOTE + 'Inputs restricted to styles that cftime itself reads as the composed instant. The exhaustive flag refers to the units grid of the thorough tier.', ref='DESIGN.md §5 C17'),
     'C20': dict(
         technique=RM + 'differential monitor CLI vs library at the file level (in-process emsarray.cli.main with captured exit status / stderr, plus a python -m emsarray subprocess sample) + composed-grammar monitor on geometry_argument / bounds_argument + expected-error events + reach monitor',
-        text='clip / extract-points / export-geometry are run on generated datasets of every convention on disk and the output files compared (variables, dims, attributes, raw values; bytes for geometry formats) with the corresponding library call; bounds strings composed from four numbers must give exactly box(a,b,c,d), composed non-bounds strings must never become a box, GeoJSON text/files must equal shape(obj); user errors must exit non-zero with a message and no output file.',
+        text='clip / extract-points / export-geometry are run on generated datasets of every convention on disk and the output files compared (variables, dims, attributes, raw values; bytes for geometry formats) with the corresponding library call; bounds strings composed from four numbers must give exactly box(a,b,c,d), composed non-bounds strings must never become a box, GeoJSON text/files must equal shape(obj); user errors must exit non-zero with a message and no output file. Also: the file read back is compared with the dataset the library call returns (not only with the file the library writes); blank coordinate cells, entirely empty records, white space around GeoJSON text, numeric _FillValue for missing coordinates.',
         note=NOTE + 'If the library call itself raises, only the CLI failure mode is asserted. Leading/trailing blanks and arguments starting with "-" are not asserted. Subprocess sample runs with the synchronous dask scheduler.', ref='DESIGN.md §5 C20'),
 }
 
